@@ -35,4 +35,11 @@ theorem flush_status_tie : Gen.writerFlushImplicitStatus = Gen.writerWriteImplic
 /-- a fresh writer reports the "nothing sent" status, and `Written()` compares with it -/
 theorem written_tie (w : Writer.W) : w.written = (w.status != Gen.writerUnwrittenStatus) := rfl
 
+/-- "the underlying writer receives at most one status line … whichever operation triggers it": in the
+    source the whole body of `WriteHeader` runs under a `sync.Once` — which is what the model's `onceDone`
+    flag mirrors (Model/Writer.lean) and what makes a second commit a no-op even when it arrives while the
+    first is still running its hooks. If the commit stops being serialised this way the model no longer
+    mirrors the code and this obligation breaks. -/
+theorem writerCommitGuard_documented : Gen.writerCommitGuard = "sync.Once" := by decide
+
 end Flamego.ConstFacts.C13
